@@ -1,5 +1,5 @@
 SPECIFICATION Spec
 CONSTANTS
   MaxToks = 2
-INVARIANTS Emit
+INVARIANTS Emit TypeOK Decided Covered
 CHECK_DEADLOCK FALSE
